@@ -138,6 +138,16 @@ def history(rng, idx, lay=LAY_DIRECT):
                 n = max(live)
                 if not live[n]:
                     window(n)
+        elif r < 14 and live:
+            # whole aligned pages poked in, then an outer store into the source page, then a look at the inner copy
+            n = rng.pick(sorted(live))
+            pg = rng.pick([16, 17, 19, 21])
+            src = rng.pick(WP) * ZP
+            ops.append(op("pages", n, pg, 1, 2))
+            ops.append(op("poke", n, src, pg * ZP, 4096))
+            off = 8 * rng.n(12)
+            ops.append(op("peek", n, WP[-1] * ZP + 512, pg * ZP + off, 8, set=[[src + off, [1 + rng.n(255) for _ in range(8)]]]))
+            live[n][pg] = "W"
         elif r < 20:
             n = some_id()
             p = rng.pick([16, 17, 18, 19, 20, 21])
@@ -222,7 +232,7 @@ def gen_tlc_cases(ctx):
 
 def norm_key(ln):
     r = json.loads(ln)
-    return json.dumps([r["call"], r["pre"], r["post"]], sort_keys=True)
+    return json.dumps([r["call"], r["pre"], r["post"], r.get("pre0"), r.get("set")], sort_keys=True)
 
 
 RC = {0: "OK", U64MAX - 8: "HUH", U64MAX - 3: "WHO", U64MAX - 2: "OOB"}
